@@ -1,7 +1,6 @@
 import AITB.Model.Proto
 import AITB.Model.Experience
-import AITB.Gen.Constants
-import AITB.Gen.C07
+import AITB.Model.ExperienceCfg
 open AITB AITB.Exp
 
 /-
@@ -35,22 +34,16 @@ structure Variant where
   modC : String
   cfg : Cfg
 
-def mkCfg (period : Nat) (n1 junkB : Bool) (junk : Rat) (rt : Option Rat) (sg : Bool := false) : Cfg :=
-  { period := period, n1Clear := n1, ctorJunk := junkB, junk := fun _ _ => junk, rewTol := rt, sparseGeneric := sg }
-
 def variantOf (name : String) (junk : Rat) : Option Variant :=
-  let pd := AITB.Gen.resyncPeriodDense
-  let ps := AITB.Gen.resyncPeriodSparse
-  let st := if AITB.Gen.C07.sparseRewardGuard then some AITB.Gen.equalToleranceSmall else none
   match name with
-  | "dense"   => some ⟨"MDP::Experience", "MaximumLikelihoodModel", mkCfg pd AITB.Gen.C07.denseN1Clear AITB.Gen.C07.denseCtorJunk junk none⟩
-  | "dsparse" => some ⟨"MDP::SparseExperience", "MaximumLikelihoodModel", mkCfg pd AITB.Gen.C07.denseN1Clear AITB.Gen.C07.denseCtorJunk junk none⟩
-  | "generic" => some ⟨"GenericExperience", "MaximumLikelihoodModel", mkCfg pd AITB.Gen.C07.denseN1Clear AITB.Gen.C07.denseCtorJunk junk none⟩
-  | "sparse"  => some ⟨"MDP::SparseExperience", "SparseMaximumLikelihoodModel", mkCfg ps AITB.Gen.C07.sparseN1Clear false junk st⟩
-  | "gsparse" => some ⟨"GenericExperience", "SparseMaximumLikelihoodModel<generic>", mkCfg ps AITB.Gen.C07.sparseN1Clear false junk st AITB.Gen.C07.sparseGenericPartial⟩
-  | "bandit"  => some ⟨"Bandit::Experience", "none", mkCfg pd true false junk none⟩
-  | "fbandit" => some ⟨"Factored::Bandit::Experience", "none", mkCfg pd true false junk none⟩
-  | "coop"    => some ⟨"CooperativeExperience", "CooperativeMaximumLikelihoodModel", mkCfg pd true false junk none⟩
+  | "dense"   => some ⟨"MDP::Experience", "MaximumLikelihoodModel", cfgDense junk⟩
+  | "dsparse" => some ⟨"MDP::SparseExperience", "MaximumLikelihoodModel", cfgDense junk⟩
+  | "generic" => some ⟨"GenericExperience", "MaximumLikelihoodModel", cfgDense junk⟩
+  | "sparse"  => some ⟨"MDP::SparseExperience", "SparseMaximumLikelihoodModel", cfgSparse junk⟩
+  | "gsparse" => some ⟨"GenericExperience", "SparseMaximumLikelihoodModel<generic>", cfgGSparse junk⟩
+  | "bandit"  => some ⟨"Bandit::Experience", "none", cfgPlain junk⟩
+  | "fbandit" => some ⟨"Factored::Bandit::Experience", "none", cfgPlain junk⟩
+  | "coop"    => some ⟨"CooperativeExperience", "CooperativeMaximumLikelihoodModel", cfgPlain junk⟩
   | _ => none
 
 structure ExpObs where
